@@ -201,7 +201,7 @@ __CPROVER_loop_invariant(GHOST_MATCH
 __CPROVER_decreases((SCL->n - Citer.pos) + (SXR->n - CXiter.pos))
 //@end
 
-//@harness h_GF_prepare enforce=GreensFunction_prepare props=C01,C19 min_obl=2299 timeout=300 reach=4
+//@harness h_GF_prepare enforce=GreensFunction_prepare props=C01,C11,C19 min_obl=2299 timeout=300 reach=4
 void h_GF_prepare(void)
 {
   struct GreensFunction *gf;
@@ -259,7 +259,7 @@ __CPROVER_loop_invariant(g_computes == ((0 <= self->parts.gidx && self->parts.gi
 __CPROVER_decreases((long)self->parts.n - iter.pos)
 //@end
 
-//@harness h_GF_compute enforce=GreensFunction_compute replace=GreensFunction_prepare props=C01 min_obl=1081 timeout=120 reach=5
+//@harness h_GF_compute enforce=GreensFunction_compute replace=GreensFunction_prepare props=C01,C11 min_obl=1081 timeout=120 reach=5
 void h_GF_compute(void)
 {
   struct GreensFunction *gf;
@@ -368,10 +368,10 @@ __CPROVER_assigns(EVAL_FRAME)
 __CPROVER_ensures(EVAL_POST(self))
 //@end
 
-//@harness h_GF_call_z enforce=GreensFunction_call_z props=C01 min_obl=393 timeout=120 reach=3
+//@harness h_GF_call_z enforce=GreensFunction_call_z props=C01,C11 min_obl=393 timeout=120 reach=3
 void h_GF_call_z(void) { struct GreensFunction *gf; cplx z; GreensFunction_call_z(gf, z); if (g_last_eval == -1) REACH("exit_none"); else REACH("exit_some"); }
 
-//@harness h_GF_call_n enforce=GreensFunction_call_n replace=GreensFunction_call_z props=C01 min_obl=201 timeout=120 reach=1
+//@harness h_GF_call_n enforce=GreensFunction_call_n replace=GreensFunction_call_z props=C01,C11 min_obl=201 timeout=120 reach=1
 void h_GF_call_n(void) { struct GreensFunction *gf; long n; GreensFunction_call_n(gf, n); REACH("exit"); }
 
 //@harness h_GF_of_tau enforce=GreensFunction_of_tau props=C11 min_obl=393 timeout=120 reach=3
